@@ -235,9 +235,55 @@ pub fn eval(c: &Case) -> Vec<(String, String)> {
     }
 }
 
+/// One level up: the LoRaWAN device copies the received frame into its own radio buffer of N bytes
+/// before the MAC sees it. A device with a 64-byte buffer receives an authentic downlink whose PHY
+/// length is 13 + `len`; everything that fits (PHY length <= 64, which is also the EU868 DR0 limit)
+/// must reach the application unchanged, anything longer must not corrupt or crash.
+fn eval_device(len: usize, rx2: bool) -> Vec<(String, String)> {
+    use crate::adev::{ACore, AEv, AResp, Script};
+    use crate::dev::{DevCfg, Fcnt, Frame, Tamper};
+    let mut v = vec![];
+    let r = catch(|| {
+        let cfg = DevCfg::abp("EU868");
+        let mut core: ACore<14, 0, 64> = ACore::new(&cfg, false);
+        let payload: Vec<u8> = (0..len).map(|i| chip_byte(i)).collect();
+        let f = Frame::Down { fcnt: Fcnt::Rel(1), confirmed: false, ack: false, fopts: vec![], port: Some(7), payload: payload.clone(), tamper: Tamper::None };
+        let script = if rx2 { Script { rx2: Some(f), ..Default::default() } } else { Script { rx1: Some(f), ..Default::default() } };
+        let st = core.apply(&AEv::Send { confirmed: false, port: 1, len: 1, script });
+        (st, payload)
+    });
+    let w = if rx2 { "rx2" } else { "rx1" };
+    match r {
+        Err(p) => v.push((format!("C18|device-level|panic|{}", panic_site(&p)), format!("{len}-byte payload in {w}: {p}"))),
+        Ok((None, _)) => {}
+        Ok((Some(st), payload)) => {
+            if let AResp::Panic(p) = &st.resp {
+                v.push((format!("C18|device-level|panic|{}", panic_site(p)), format!("{len}-byte payload in {w}: {p}")));
+            } else if 13 + len <= 64 {
+                // fits the buffer and the data rate: delivered byte for byte
+                if st.downlinks != vec![(7u8, payload.clone())] {
+                    v.push((
+                        format!("C18|device-level|frame-that-fits-the-radio-buffer-not-delivered|{}", if 13 + len == 64 { "exactly-full" } else { "shorter" }),
+                        format!("PHY length {} in {w} with a 64-byte radio buffer: answered {:?}, application received {:?}", 13 + len, st.resp, st.downlinks.iter().map(|d| (d.0, d.1.len())).collect::<Vec<_>>()),
+                    ));
+                }
+            } else if !st.downlinks.is_empty() && st.downlinks != vec![(7u8, payload.clone())] {
+                v.push((format!("C18|device-level|oversized-frame-delivered-corrupted"), format!("PHY length {} in {w}: {:?}", 13 + len, st.downlinks)));
+            }
+        }
+    }
+    v
+}
+
 pub fn run(tier: Tier, replay: Option<&str>) {
     if let Some(path) = replay {
-        let c: Case = serde_json::from_value(load_case(path)).expect("case");
+        let cj = load_case(path);
+        if let Some(d) = cj.get("device_level") {
+            let len = d["len"].as_u64().unwrap_or(0) as usize;
+            let rx2 = d["rx2"].as_bool().unwrap_or(false);
+            replay_exit("C18", path, eval_device(len, rx2).into_iter().map(|x| x.0).collect());
+        }
+        let c: Case = serde_json::from_value(cj).expect("case");
         replay_exit("C18", path, eval(&c).into_iter().map(|x| x.0).collect());
     }
     let ctx = Ctx::new("C18", tier);
@@ -297,10 +343,22 @@ pub fn run(tier: Tier, replay: Option<&str>) {
         }
         ctx.tick(n);
     });
+    // device level (64-byte radio buffer): every payload length up to well past the buffer, both windows
+    let mut device_cases = 0u64;
+    for len in 0..=120usize {
+        for rx2 in [false, true] {
+            for (sig, what) in eval_device(len, rx2) {
+                ctx.violation(sig, what, json!({"device_level": {"len": len, "rx2": rx2}}), len);
+            }
+            device_cases += 1;
+            ctx.tick(1);
+        }
+    }
     let coverage = json!({
         "evaluations": ctx.evals(),
+        "device_level_cases": device_cases,
         "distinct_nontrivial": returned.load(Ordering::Relaxed),
-        "rule": "chip model (SX1262, SX1276, SX1272) reports every length 0..=255 x offset (all 256 in thorough) x status (SX126x: all 8 command-status values; SX127x: done / CRC error) after a reception; the real driver fetches the packet through LoRa::rx (single and continuous), LoRa::get_rx_result and LorawanRadio::rx_single / rx_continuous into caller buffers of 0, 1, 12, 64, 255, 256 bytes embedded in canaries, in explicit-header mode and in implicit-header mode with configured lengths 0, 1, 12, 255; chip buffer holds position-dependent bytes. non-trivial = cases in which a packet was returned (and compared byte for byte)",
+        "rule": "chip model (SX1262, SX1276, SX1272) reports every length 0..=255 x offset (all 256 in thorough) x status (SX126x: all 8 command-status values; SX127x: done / CRC error) after a reception; the real driver fetches the packet through LoRa::rx (single and continuous), LoRa::get_rx_result and LorawanRadio::rx_single / rx_continuous into caller buffers of 0, 1, 12, 64, 255, 256 bytes embedded in canaries, in explicit-header mode and in implicit-header mode with configured lengths 0, 1, 12, 255; chip buffer holds position-dependent bytes; plus the device level (see assumptions). non-trivial = cases in which a packet was returned (and compared byte for byte)",
         "samples": [
             serde_json::to_value(Case { group: groups[0].clone(), len: 13, off: 250, status: 2 }).unwrap(),
             serde_json::to_value(Case { group: groups[groups.len() - 1].clone(), len: 255, off: 1, status: 0 }).unwrap(),
@@ -311,6 +369,9 @@ pub fn run(tier: Tier, replay: Option<&str>) {
         "groups": groups.len(),
     });
     let replayer = |cj: &Value| -> Vec<String> {
+        if let Some(d) = cj.get("device_level") {
+            return eval_device(d["len"].as_u64().unwrap_or(0) as usize, d["rx2"].as_bool().unwrap_or(false)).into_iter().map(|x| x.0).collect();
+        }
         let c: Case = serde_json::from_value(cj.clone()).unwrap();
         eval(&c).into_iter().map(|x| x.0).collect()
     };
@@ -320,7 +381,7 @@ pub fn run(tier: Tier, replay: Option<&str>) {
         vec![
             "chip models: /verif/harness/mc/src/chips.rs (data buffer / FIFO wrap at 256, RegFifoRxCurrentAddr / GetRxBufferStatus semantics from the datasheets)".into(),
             "an error return is always acceptable; a returned packet must have the chip-defined length, the chip's bytes and leave the rest of the caller's memory untouched".into(),
-            "async_device copies into its own 256-byte radio buffer, which every 0..=255 byte packet fits; that level is not exercised separately".into(),
+            "one level up: an async LoRaWAN device with a 64-byte radio buffer receives authentic downlinks of every PHY length 13..133 in RX1 and RX2; everything that fits must reach the application byte for byte".into(),
         ],
         Some(&replayer),
     );
